@@ -156,6 +156,38 @@ def d1_writer(facts, rep):
                 rep.ob('D1', 'K4', fn, 'after an upgrade that released the bucket lock the chain is searched again before it is changed', not bad,
                        'a node pointer obtained before the lock was dropped is used after it (it may have been erased meanwhile)',
                        key_extra='re%d.%d' % (b, si))
+                # ... and the re-search starts from scratch: every local the chain mutation reads (the node, its predecessor) is
+                # defined again on every path from the failed upgrade to the mutation - a predecessor remembered from the first
+                # search may have been unlinked and freed while the lock was released
+                defs = Defs(fn)
+                stale = []
+                for spos_, ssx in [(x[0], fn.elems(x[0][0])[x[0][1]]) for x in sites]:
+                    if not isinstance(ssx, int):
+                        continue
+                    if not fn.can_reach((tgt, 0), spos_):
+                        continue
+                    used = set()
+                    for x in fn.subtree(ssx):
+                        nd = fn.nodes[x]
+                        if nd.get('k') == 'var' and nd.get('local') and nd.get('ty', '').rstrip().endswith('*'):
+                            used.add((nd['v'], nd['n']))
+                    # the branch that selects the mutation (prev == nullptr ?) reads the predecessor as well
+                    for bb, blk in fn.blocks.items():
+                        t = blk.get('term')
+                        if t and 'c' in t and any(dominated_by_edges(fn, spos_, {(bb, k)})[0] for k in (0, 1)) and fn.can_reach((tgt, 0), (bb, 0)):
+                            for x in fn.subtree(t['c']):
+                                nd = fn.nodes[x]
+                                if nd.get('k') == 'var' and nd.get('local') and nd.get('ty', '').rstrip().endswith('*'):
+                                    used.add((nd['v'], nd['n']))
+                    for vid, vname in used:
+                        dpos = set(fn.positions()[dn] for (v, dn) in defs.value_of if v == vid and dn in fn.positions())
+                        ok_v, wit_v = every_path_passes(fn, (tgt, -1), lambda p_, e_: p_ in dpos, end=spos_)
+                        if not ok_v:
+                            stale.append('%s (%s)' % (vname, wit_v))
+                rep.ob('D1', 'K4', fn, 'the search after a released lock recomputes every pointer the chain mutation uses', not stale,
+                       'stale across the retry: %s - it can name a node that was unlinked and freed while the bucket lock was released; '
+                       'the erased node then stays linked (key resurrected, second erase succeeds, accessor to a destroyed element)'
+                       % '; '.join(sorted(set(stale))[:2]), key_extra='fresh%d.%d' % (b, si))
     rep.floor('D1', 9, 'chain mutation sites')
 
 
